@@ -874,5 +874,8 @@ for _p in ("C10", "C20"):
     PROPS[_p]["rules"] = PROPS[_p]["rules"] + [rules_sd.rule_name_limit_same_side]
     PROPS[_p]["explanation"] += " (NAMELIMIT) every comparison of a length with H4_MAX_NC_NAME accepts a length equal to it."
 
+PROPS["C16"]["rules"] = PROPS["C16"]["rules"] + [rules_mem.rule_alias_not_freed_before_cleanup]
+PROPS["C16"]["explanation"] += " (ALIASFREE) a local that names the block the failure cleanup frees through a record field is not freed in an error branch that goes on to the cleanup."
+
 NOT_APPLICABLE = {}
 
